@@ -413,3 +413,8 @@ M("C20", "body-offset-velocity-step", "beyond/env/solarsystem.py", "        x[3:
 M("C15", "date-unpickled-without-eop", DATE, '        super().__setattr__("eop", state["eop"])', '        super().__setattr__("eop", EopDb.get(self._mjd))', "DEP")
 R("C20", "body-offset-comment", "beyond/env/solarsystem.py", "        x[3:] = (x1[:3] - x0[:3]) / (2 * cls._diff_step.total_seconds())", "        # central difference\n        x[3:] = (x1[:3] - x0[:3]) / (2 * cls._diff_step.total_seconds())")
 R("C15", "date-setstate-local", DATE, '        super().__setattr__("eop", state["eop"])', '        eop = state["eop"]\n        super().__setattr__("eop", eop)')
+
+# ---- wave q: what the per-item copy calls (R15.6), and the Sun / Moon propagators behind C19
+M("C15", "propagator-copy-returns-self", BASE, "    def copy(self):\n        return self.__class__()\n", "    def copy(self):\n        return self\n", "R15.6")
+R("C15", "propagator-copy-through-local", BASE, "    def copy(self):\n        return self.__class__()\n", "    def copy(self):\n        cls = self.__class__\n        return cls()\n")
+M("C19", "sun-velocity-step", "beyond/env/solarsystem.py", "        x[3:] = (x1[:3] - x0[:3]) / (2 * cls._diff_step.total_seconds())", "        x[3:] = (x1[:3] - x0[:3]) / cls._diff_step.total_seconds()", "DEP")
